@@ -449,8 +449,11 @@ func lexValue(l *lexer) stateFn {
 
 	if seenFinalQuote || r != eof {
 		l.emit(itemValue)
+		return lexText
 	}
-	return lexText
+
+	// the input ended before the closing quote.
+	return l.errorf("unterminated string: %s", l.input[l.start:])
 }
 
 func lexPlaceholder(l *lexer) stateFn {
